@@ -118,4 +118,18 @@ PmCapCase(n) ==
   IN [op |-> "pm", arg |-> CatSeq([k \in 1..n |-> ph(k) \o (IF k < n THEN <<32>> ELSE << >>)]),
       in |-> CatSeq([k \in 1..n |-> <<45>> \o ph(k)]), tx |-> CaptureTX([k \in 1..n |-> ph(k)]), used |-> IF n < 10 THEN n ELSE 10]
 CapTable == {RxCapCase(n, o) : n \in 0..12, o \in BOOLEAN} \cup {PmCapCase(n) : n \in 1..12}
+(***************************************************************************)
+(* @rx: the dot matches every byte, the newline included, whatever else    *)
+(* the pattern contains (a pattern that names a byte outside UTF-8 by an   *)
+(* escape is matched byte-wise by another engine: the same must hold).     *)
+(* Patterns  <pre>.<post>  on inputs  <pre bytes> NL <post bytes>.         *)
+(***************************************************************************)
+RxAtoms == << [pat |-> <<97>>, bytes |-> <<97>>],                         \* a
+              [pat |-> <<92, 120, 102, 102>>, bytes |-> <<255>>],         \* \xff
+              [pat |-> <<92, 120, 54, 49>>, bytes |-> <<97>>],            \* \x61
+              [pat |-> <<91, 97, 45, 99, 93>>, bytes |-> <<98>>] >>       \* [a-c]
+RxDotTable == {[arg |-> RxAtoms[i].pat \o <<46>> \o RxAtoms[j].pat, in |-> RxAtoms[i].bytes \o <<10>> \o RxAtoms[j].bytes, holds |-> TRUE] :
+                 i \in 1..Len(RxAtoms), j \in 1..Len(RxAtoms)}
+              \cup {[arg |-> RxAtoms[i].pat \o <<46>> \o RxAtoms[j].pat, in |-> RxAtoms[i].bytes \o RxAtoms[j].bytes, holds |-> FALSE] :
+                 i \in 1..Len(RxAtoms), j \in 1..Len(RxAtoms)}
 =============================================================================
